@@ -113,8 +113,11 @@ let handle (i : string list) (o : string list) =
           if String.length rest > 1 && rest.[0] = 'x' then int_of_n (n_of_hex (String.sub rest 1 (String.length rest - 1))) else 0
         with Not_found -> 0) o) in
     let cur_xml = ref 0 in
+    let publish_failed = ref false in
     let fdt_ok _ = (if not raptor then true else
-                      let k = (!cur_xml + session_e - 1) / session_e in not (k = 2 || k = 3)) in
+                      let k = (!cur_xml + session_e - 1) / session_e in
+                      let ok = not (k = 2 || k = 3) in
+                      if not ok then publish_failed := true; ok) in
     let mk_op t head = match t with
           | ["A"; prio; len; e; _b; mx; car; target; allow; start] ->
             let len = int_of_string len and e = int_of_string e in
@@ -211,7 +214,9 @@ let handle (i : string list) (o : string list) =
     let npkts = List.length (List.filter (fun e -> match e with TRead (_, (RObj _ | RFdt _), _, _) -> true | _ -> false) evs_only) in
     (* predicates on what the implementation did *)
     let pred_fail =
-      if prop = "c11" then (if p_C11 evs_only then None else Some "P_C11_announce_before_send")
+      if prop = "c11" then (if p_C11 evs_only then None
+                            else if known_D27 full !publish_failed then Some "KNOWN:D27"
+                            else Some "P_C11_announce_before_send")
       else if prop = "c12" then begin
         if not (p_C12_wire evs_only) then Some "P_C12_wire"
         else begin
@@ -261,12 +266,13 @@ let handle (i : string list) (o : string list) =
         | _ -> false
       end in
     match !diff with
-    | Some d -> (match pred_fail with Some why when why <> "KNOWN:D23" -> verdict_both why d | _ -> verdict_diff d)
+    | Some d -> (match pred_fail with Some why when why <> "KNOWN:D23" && why <> "KNOWN:D27" -> verdict_both why d | _ -> verdict_diff d)
     | None ->
       if panicked && not model_panics then verdict_both "sender-panicked" "model-does-not-panic"
       else if panicked then (if prop = "c14" then verdict_pfail "P_C14_degenerate_total:sender-panicked" else verdict_ok false)
       else (match pred_fail with
           | Some "KNOWN:D23" -> verdict_known "D23"
+          | Some "KNOWN:D27" -> verdict_known "D27"
           | Some why -> verdict_pfail why
           | None -> verdict_ok (npkts >= 3))
   end
